@@ -40,6 +40,10 @@ def run(ctx, rep):
     T.check_index(ri, ri)
     rf = rep.rule("formula", "seconds formula (C01 P1)", floor=1)
     T.check_sec_formula(rf)
+    rrf = rep.rule("resolution-field", "the resolution every tick-to-time conversion and tick distance uses is the integer written on "
+                                       "the [Song] Resolution line (converter int, digits-only capture)", floor=3)
+    from .C15 import check_resolution_field
+    check_resolution_field(ctx, rrf)
     rch = rep.rule("chain", "file -> lines -> framing -> routing -> dispatcher -> note builder", floor=10)
     from .chain import check_chain
     check_chain(ctx, rch, "instrument", strict=True, recognisers=("chartparse.instrument.NoteEvent.ParsedData",))
